@@ -905,6 +905,7 @@ func c19Chan(r *Run) {
 	c19CtxCheck(r, "chan.ctx.read", func(ctx context.Context) error { _, err := a.Read(ctx); return err })
 	c19CtxCheck(r, "chan.ctx.write", func(ctx context.Context) error { return b.Write(ctx, &Rpc{Id: 1}) })
 	c19ChanCancelledRead(r)
+	c19ChanObs(r)
 }
 
 // ---------------------------------------------------------------------------
